@@ -22,7 +22,8 @@ Rw(t) == 2 ^ (t % 16)
 SchedAt(t) == IF t >= 1 /\ t <= Len(Sched) THEN Sched[t] ELSE 0
 
 \* ---- scripted base environment
-BaseReset == [t |-> 0, acc |-> 0, obs |-> <<0, 0>>, reward |-> 0, done |-> 0]
+\* (the reset state depends on the member's system parameter: acc starts at Gain - 1, i.e. 0 for the nominal system)
+BaseReset == [t |-> 0, acc |-> Gain - 1, obs |-> <<0, Gain - 1>>, reward |-> 0, done |-> 0]
 BaseStep(b, a) == LET t1 == b.t + 1 IN
   [t |-> t1, acc |-> b.acc + a, obs |-> <<t1, b.acc + a>>, reward |-> Gain * Rw(t1), done |-> SchedAt(t1)]
 
@@ -57,8 +58,8 @@ EvalStep(e, s1) ==
    epsteps |-> IF e.active = 1 THEN s1.steps ELSE e.epsteps,
    active  |-> e.active * (1 - s1.done)]
 
-ResetState == [t |-> 0, acc |-> 0, obs |-> <<0, 0>>, reward |-> 0, done |-> 0,
-               steps |-> 0, trunc |-> 0, ft |-> 0, facc |-> 0, fobs |-> <<0, 0>>]
+ResetState == [t |-> 0, acc |-> Gain - 1, obs |-> <<0, Gain - 1>>, reward |-> 0, done |-> 0,
+               steps |-> 0, trunc |-> 0, ft |-> 0, facc |-> Gain - 1, fobs |-> <<0, Gain - 1>>]
 ResetEval  == [esum |-> 0, active |-> 1, epsteps |-> 0]
 ResetGhost == [npre |-> 0, n |-> 0, lastSub |-> 0, ep |-> 1, k |-> 0, log |-> <<>>, firstSum |-> 0,
                firstLen |-> 0, rdef |-> 0, a |-> 0, t0 |-> 0]
